@@ -37,12 +37,18 @@ fn corpus(repo: &str) -> (Corpus, Value) {
         }
     }
     let collisions: Vec<Vec<usize>> = groups.into_values().filter(|g| g.len() >= 2).collect();
+    let mut by_item: std::collections::BTreeMap<&str, Vec<usize>> = Default::default();
+    for (i, k) in h.keys.iter().enumerate() {
+        by_item.entry(k.item.as_str()).or_default().push(i);
+    }
+    let item_groups: Vec<Vec<usize>> = by_item.into_values().filter(|g| g.len() >= 2).collect();
     let info = json!({"files": info["files"], "files_unparsed": info["files_unparsed"], "items_with_derive": info["items_with_derive"],
                       "harvested_keys": info["harvested_keys"], "hand_written_fault_keys": info["hand_written_fault_keys"], "derives": info["derives"],
                       "name_collision_groups": collisions.len()});
     (
         Corpus {
             collisions,
+            item_groups,
             env_names: vec![],
             base: h.keys,
             faults: workload::fault_keys(),
@@ -71,7 +77,7 @@ fn cmd_drive(args: &[String]) -> i32 {
     // discovery pre-pass: which environment variables do the expanders ask for? (none, on the pinned tree)
     let mut corpus = corpus;
     {
-        let pre = drive::run_batch(ctx.clone(), Arc::new(Corpus { collisions: corpus.collisions.clone(), base: corpus.base.clone(), faults: corpus.faults.clone(),
+        let pre = drive::run_batch(ctx.clone(), Arc::new(Corpus { collisions: corpus.collisions.clone(), item_groups: corpus.item_groups.clone(), base: corpus.base.clone(), faults: corpus.faults.clone(),
                                                                derives: corpus.derives.clone(), env_names: vec![] }),
                                    Arc::new(RefCache::new()), seed ^ 0x5eed_d15c, 0, 24, jobs, 0);
         corpus.env_names = pre.stats.seam_names.iter().map(|n| (n.clone(), envmodel::candidates(n, &repo))).collect();
